@@ -21,6 +21,36 @@ CLAIMS = {
     ),
 }
 
+OPS_NOTE = TRUST + " valid_mesh hypotheses (0<=i_e<j_e<N, distinct site pairs, areas>0, lengths>0); numpy/scipy.sparse models; block-wise matrix comparison is sufficient, not necessary."
+CLAIMS["C03"] = dict(
+    category="proof",
+    text="Stencil postconditions (written from the docs) proved block-wise on the matrices the real build_divergence / build_gradient / "
+         "build_laplacian / build_neumann_boundary_laplacian assemble for a mesh with SYMBOLIC numbers of sites, edges, boundary edges and "
+         "pinned sites, plus the identities (L = D o G, area-weighted divergence sums to zero, flux integral, symmetry, negative "
+         "semi-definite edge form, kernel, Hermiticity for any real vector potential, gradient exact on linear functions) as lemmas over "
+         "those stencils at the generic edge. Holds for every triangulation; three finite-sum meta-lemmas are trusted.",
+    design_ref="DESIGN.md section 4 C03",
+    technique="contract-based deductive verification: real builders executed on symbolic arrays / sparse blocks, per-edge VCs to z3",
+    note=OPS_NOTE)
+CLAIMS["C10"] = dict(
+    category="proof",
+    text="Class invariant of the real MeshOperators: psi_gradient and psi_laplacian equal the from-scratch stencils for link_exponents. "
+         "Proved: established by the first set_link_exponents call and preserved by a call with an arbitrary new vector potential "
+         "(pinned rows included, pinning on and off), hence by induction after every finite history of vector potentials on every mesh. "
+         "Side conditions of the in-place sparse assignment (mask conformance, alignment with one assembled block, sole contributor, no complex->real downcast) are obligations.",
+    design_ref="DESIGN.md section 4 C10",
+    technique="contract-based deductive verification: class invariant + symbolic sparse-block execution of the real set_link_exponents, VCs to z3",
+    note=OPS_NOTE + " scipy M[rows,cols]=vals contract assumed. The solver-side trigger (update refreshes when A changes) belongs to the TDGLSolver.update unit.")
+CLAIMS["C06"] = dict(
+    category="proof",
+    text="Pinned-row stencil of the real build_laplacian (row of a pinned site is exactly the identity entry, free sites get no identity row, no "
+         "pinned rows when pinning is off), the in-place refresh keeps pinned rows (C10 invariant), and one step of the real "
+         "solve_for_psi_squared at a pinned site keeps psi = 0 for all mu, epsilon, gamma, u, dt. For a NON-ZERO terminal value the step "
+         "obligation fails on the pinned tree: recorded as a known finding (known_findings.json).",
+    design_ref="DESIGN.md section 4 C06",
+    technique="contract-based deductive verification: stencil contracts on symbolic meshes + per-site NRA on the real step function",
+    note=OPS_NOTE + " The constructor clause (psi_init on terminal sites, fix_psi iff terminal_psi is not None) is not yet under contract.")
+
 NA = {}
 
 checks = []
